@@ -1,7 +1,7 @@
 """C05 — No client input can stop the daemon or disturb other clients (DESIGN.md section 4, C05)."""
 import ast
 from ..engine.model import AnalysisError, dotted
-from ..engine.context import unparse, enclosing_trys, enclosing_loops, enclosing_stmt
+from ..engine.context import unparse, enclosing_trys, enclosing_loops, enclosing_stmt, stores_in
 from ..engine.cfg import handler_is_catch_all, facts_of, walk_no_nested, calls_in
 from ..engine.guards import reached_under, isinstance_atom, flag_test_atom, eval_test
 
@@ -45,6 +45,8 @@ def run(ctx, R, tier):
                      "CommunicationError (truth table over the exception lattice)", floor=3)
     R.rule("C05-R4", "_sendExceptionResponse: serialisation of the exception is under a catch-all that substitutes a PyroError built from text", floor=2)
     R.rule("C05-R5", "every call site of Daemon._handshake is contained (lexically under a catch-all try)", floor=3)
+    R.rule("C05-R8", "definite assignment: no function of the library reads a local that some path leaves unassigned (an unexpected NameError on an error path "
+                     "replaces the real error and, outside a catch-all, ends a loop)", floor=10)
     R.rule("C05-R6", "the peer-controlled annotation walk makes progress: chunk lengths are decoded unsigned and the cursor advances by a positive "
                      "constant plus the declared length (shared with C06-R3/R5)", floor=3)
 
@@ -291,6 +293,31 @@ def run(ctx, R, tier):
         trys = [t for t, part in enclosing_trys(c, g.node) if part == "body" and any(handler_is_catch_all(h) for h in t.handlers)]
         R.check(bool(trys), "C05-R5", "%s|_handshake" % g.qualname, "handshake call is under a catch-all try", g.loc(c),
                 "an exception of Daemon._handshake (send failure, annotation/serialisation error) leaves %s" % g.qualname)
+
+    # ---------------------------------------------------------------- R8
+    from ..engine.dataflow import possibly_undefined
+    # named exceptions, confirmed by reading; the variable is identified by how it is defined / where it is read, not by its name
+    def excused(g, nm, x):
+        par = getattr(x, "_parent", None)
+        if g.qualname == "Pyro5.server.Daemon.handleRequest" and isinstance(par, ast.Call) and isinstance(par.func, ast.Attribute) and par.func.attr == "dumps":
+            # the result variable: only the oneway-thread branch leaves it unset, and that branch is followed by `if request_flags & FLAGS_ONEWAY: return`
+            return True
+        if g.qualname == "Pyro5.svr_threads.SocketServer_Threadpool.close":
+            # the variable assigned from self.sock.getsockname(): read inside `with contextlib.suppress(Exception)` after the close; unset only if getsockname() failed
+            defs = [st for st, t, k in stores_in(g.node) if isinstance(t, ast.Name) and t.id == nm]
+            return bool(defs) and all("getsockname(" in unparse(st.value) for st in defs)
+        return False
+    by_mod = {}
+    for g in p.functions.values():
+        mn = g.module.name
+        if mn.startswith("Pyro5.compatibility") or mn == "Pyro5.utils.echoserver" or isinstance(g.node, ast.Lambda):
+            continue
+        hits = [(nm, x) for nm, node, x in possibly_undefined(ctx.cfg(g), g.node, g.params) if not excused(g, nm, x)]
+        by_mod.setdefault(mn, []).append((g, hits))
+    for mn in sorted(by_mod):
+        bad = [(g, h) for g, hs in by_mod[mn] for h in hs]
+        R.check(not bad, "C05-R8", "module|%s" % mn, "every local read in the %d functions of this module is assigned on all paths leading to the read" % len(by_mod[mn]), mn.replace(".", "/") + ".py",
+                ("`%s` can be read at %s before it is assigned on some path through %s (NameError at run time)" % (bad[0][1][0], bad[0][0].loc(bad[0][1][1]), bad[0][0].qualname)) if bad else "")
 
 
 def worker_loop_rules(ctx, R, rid):
